@@ -528,6 +528,39 @@ def value_kinds(ctx, pt, sites):
     ctx.floor("values stored into dumped structures", 40, n)
 
 
+# ---------------------------------------------------------------------------------------------- C06.7
+def sole_content(ctx, sites):
+    """Nothing precedes or follows the top-level dictionary: the encoding is the only thing written to a file that starts empty."""
+    for fn, call, obj, how in sites:
+        if how == "pyben.dump":
+            ctx.holds("C06.7", fn, "pyben.dump opens its target 'wb' and writes the encoding once (fact C06.P)", call, nontrivial=False)
+            continue
+        # pyben.dumps(...) -> fd.write(encoded)
+        parent = ctx.prog.parent.get(call)
+        var = parent.targets[0].id if isinstance(parent, ast.Assign) and isinstance(parent.targets[0], ast.Name) else None
+        writes = [m for m in own_nodes(fn.node) if isinstance(m, ast.Call) and isinstance(m.func, ast.Attribute) and m.func.attr in ("write", "writelines")
+                  and (any(isinstance(a, ast.Name) and a.id == var for a in m.args) or any(a is call for a in m.args))]
+        for w in writes:
+            modes = {k[1] for k in ctx.res.kinds(w.func.value, fn) if k[0] == "file"}
+            if not modes:
+                ctx.undecided("C06.7", fn, "cannot tell how the file receiving the encoding was opened", w)
+                continue
+            for mode in sorted(modes, key=str):
+                if mode is None:
+                    ctx.undecided("C06.7", fn, "the file receiving the encoding is opened with a non-constant mode", w)
+                elif ("w" in mode or "x" in mode) and "b" in mode:
+                    ctx.holds("C06.7", fn, "the encoding is written to a file opened %r: it starts empty, so nothing precedes or follows the top-level dictionary" % mode, w)
+                else:
+                    ctx.violated("C06.7", fn, "the encoding is written to a file opened %r, which does not start empty (no truncation): when the new encoding is shorter than what the file held, stale bytes follow the top-level dictionary" % mode
+                                 if "b" in mode else "the encoding is written to a file opened in text mode %r" % mode, w)
+            # exactly one write of the encoding and nothing else written to that file object
+            recv = norm(w.func.value)
+            others = [m for m in own_nodes(fn.node) if isinstance(m, ast.Call) and isinstance(m.func, ast.Attribute) and m.func.attr in ("write", "writelines", "seek", "truncate")
+                      and norm(m.func.value) == recv and m is not w]
+            ctx.decide("C06.7", fn, not others and not C.in_loop(ctx, fn, w), "the encoding is the only thing written to that file",
+                       "other data is written to the file that receives the encoding (%s)" % (norm(others[0]) if others else "the write is repeated"), norm(w) + " :: only write")
+
+
 # ---------------------------------------------------------------------------------------------- C06.5
 def required_keys(ctx, pt):
     init = ctx.prog.func("torrentfile.torrent:MetaFile.__init__")
@@ -704,6 +737,7 @@ def run(ctx):
         nob += canonical_order(ctx, pt, site)
     ctx.floor("dictionary obligations (C06.1-3)", 20, nob)
     value_kinds(ctx, pt, sites)
+    sole_content(ctx, sites)
     required_keys(ctx, pt)
     hash_kinds(ctx, pt)
     from .dynscan import dynamic_features
